@@ -4,6 +4,7 @@ import (
 	"bytes"
 	"encoding/json"
 	"fmt"
+	"os"
 	"strconv"
 	"strings"
 	"time"
@@ -182,7 +183,13 @@ func runServerCaseV(c caseID, variant string) (res caseResult) {
 	add := func(key, format string, a ...any) {
 		res.Findings = append(res.Findings, finding{key, what + ": " + fmt.Sprintf(format, a...)})
 	}
-	e := vsched.Run(vsched.Options{Horizon: tm.tRe + 30*time.Second}, func(e *vsched.Exec) {
+	horizon := tm.tRe + 30*time.Second
+	if i := strings.IndexByte(variant, '+'); i >= 0 {
+		if d, err := time.ParseDuration(variant[i+1:]); err == nil {
+			horizon += d // the second outage of the recover-twice variants
+		}
+	}
+	e := vsched.Run(vsched.Options{Horizon: horizon}, func(e *vsched.Exec) {
 		scfg := &sio.ServerConfig{ServerConnectionStateRecovery: sio.ServerConnectionStateRecovery{Enabled: true, MaxDisconnectionDuration: window}}
 		srv := sio.NewServer(scfg)
 		nsp := srv.Of("/")
@@ -514,6 +521,9 @@ func runServerCaseV(c caseID, variant string) (res caseResult) {
 			return f2, c2, true, !broken
 		}
 		f2, c2, recovered, ok := reconnect("S2", ab, 0, offsetIdx, exp, why, tm)
+		if os.Getenv("VERIF_C08_DEBUG") != "" {
+			fmt.Fprintf(os.Stderr, "first round: variant=%s recovered=%v ok=%v exp=%v why=%s\n", variant, recovered, ok, exp, why)
+		}
 		if variant == vBoth {
 			abT, _ := json.Marshal(map[string]string{"pid": spT.PID, "offset": offsetT})
 			expT, whyT := expect(model, offsetIdxT, tm)
@@ -571,8 +581,16 @@ func runServerCaseV(c caseID, variant string) (res caseResult) {
 			add("server: live events after the reconnection are not delivered as emitted", "recovered=%v; new connection received %s; expected %d live events after %d replayed", recovered, f2, len(wantLive), seen)
 			return
 		}
-		if variant != vTwice || !recovered {
+		if !strings.HasPrefix(variant, vTwice) || !recovered {
 			return
+		}
+		// how long the second outage lasts (variant "recover-twice+<duration>"; default 2 s): the window
+		// of a session that was recovered once is counted from its LATEST disconnection
+		gap2 := 2 * time.Second
+		if i := strings.IndexByte(variant, '+'); i >= 0 {
+			if d, err := time.ParseDuration(variant[i+1:]); err == nil {
+				gap2 = d
+			}
 		}
 		// second round: cut again right away, two more packets, reconnect with the newest offset
 		lastOff := ""
@@ -587,6 +605,9 @@ func runServerCaseV(c caseID, variant string) (res caseResult) {
 				off2 = i
 			}
 		}
+		if os.Getenv("VERIF_C08_DEBUG") != "" {
+			fmt.Fprintf(os.Stderr, "second round starts: lastOff=%q off2=%d gap2=%v\n", lastOff, off2, gap2)
+		}
 		if off2 < 0 {
 			res.HarnessErr = what + ": second round: last offset not in the model"
 			return
@@ -598,9 +619,12 @@ func runServerCaseV(c caseID, variant string) (res caseResult) {
 		emitKind(sym(kS*2), e.Clock())
 		emitKind(sym(kR2*2), e.Clock())
 		emitKind(sym(kR1*2+1), e.Clock())
-		vsched.Sleep(time.Second)
+		vsched.Sleep(gap2 - time.Second)
 		tm2.tRe = e.Clock()
 		exp2, why2 := expect(model, off2, tm2)
+		if os.Getenv("VERIF_C08_DEBUG") != "" {
+			fmt.Fprintf(os.Stderr, "second round: tDisc=%v tRe=%v off2=%d at=%v exp=%v why=%s\n", tm2.tDisc, tm2.tRe, off2, model[off2].at, exp2, why2)
+		}
 		ab2, _ := json.Marshal(map[string]string{"pid": spS.PID, "offset": lastOff})
 		reconnect("S3", ab2, 0, off2, exp2, why2+" (second recovery of the same session)", tm2)
 	})
@@ -645,6 +669,12 @@ func serverScenarios() []srvScenario {
 		}
 	}
 	out = append(out, srvScenario{"recover-twice/mixed", caseID{H: mixed, K: 4, Delta: time.Second}, vTwice})
+	// two outages in a row whose lengths add up to more than the window (120 s) while each stays inside it
+	for _, d1 := range []time.Duration{time.Second, 61 * time.Second, 119 * time.Second} {
+		for _, d2 := range []string{"59s", "61s", "119s"} {
+			out = append(out, srvScenario{fmt.Sprintf("recover-twice/first-outage=%v/second-outage=%s", d1, d2), caseID{H: short, K: 1, Delta: d1}, vTwice + "+" + d2})
+		}
+	}
 	bins := h(t(kAll), b(kAll), b(kR1), b(kR2), b(kAll), b(kT), b(kS))
 	for _, d := range []time.Duration{time.Second, 61 * time.Second, 119 * time.Second} {
 		out = append(out, srvScenario{fmt.Sprintf("two-sessions/binary/%v", d), caseID{H: bins, K: 1, Delta: d}, vBoth})
